@@ -511,6 +511,14 @@ pub fn run(tier: Tier) -> Report {
         fam_descr.push(json!({"n": f.n, "widths": f.widths, "identity_defaults": f.ident, "values": f.values, "activations": f.acts.iter().map(|a| format!("{:?}", a)).collect::<Vec<_>>(), "heads": f.heads, "preconditions": f.pres.len(), "max_deviations": f.budget, "networks": v.len()}));
         nets.extend(v);
     }
+    // wide layers (64-72 neurons, most of them linear): the builder's node estimate saturates for these widths
+    for (n, w, active) in [(2usize, 64usize, vec![0usize, 1, 63]), (2, 72, vec![5, 70]), (1, 66, vec![0, 33, 65])] {
+        let w1: Vec<Vec<f64>> = (0..w).map(|i| (0..n).map(|j| [1.0, -1.0, 0.5, 2.0, 0.0][(i + 2 * j) % 5]).collect()).collect();
+        let b1: Vec<f64> = (0..w).map(|i| [0.0, 1.0, -0.5][i % 3]).collect();
+        let acts: Vec<Act> = (0..w).map(|i| if active.contains(&i) { Act::Relu } else { Act::None }).collect();
+        let w2: Vec<Vec<f64>> = vec![(0..w).map(|i| if active.contains(&i) || i % 16 == 3 { 1.0 } else { 0.0 }).collect()];
+        nets.push(Net { n, pre: Pre::None, blocks: vec![Block { w: w1, b: b1, acts, rev: false }, Block { w: w2, b: vec![0.5], acts: vec![Act::None], rev: false }], head: Head::None });
+    }
     rep.set("programs", nets.len() as u64);
     rep.set("families", Value::Array(fam_descr));
     let total = par_cases(&nets, |_, n| check_net(n));
